@@ -51,6 +51,21 @@ theorem gEx16_trace : (run gEx16 schedEx16).tr =
      .cmd 2 0, .ret 2 0 true, .done 2 true, .cmd 0 2, .ret 0 2 true, .done 0 true,
      .mwait false, .fin 0 true, .fin 1 false, .fin 2 true, .fin 3 true, .root true] := by decide
 
+/-- on `gEx16f` the fail handler (2) runs and fails before `finally` (3) has entered its first command;
+RunLoop of `finally` then takes the `<-Done()` branch (label `stop 3`) -/
+def schedEx16f : List Label :=
+  rep 2 .main ++ rep 6 (.task 0) ++ rep 7 (.task 1) ++ rep 4 (.tryg 0) ++ rep 4 (.task 2) ++ [.task 3, .stop 3, .task 3] ++
+  rep 6 (.task 0) ++ rep 8 .main
+
+theorem gEx16f_wf : wf gEx16f = true := by decide
+
+set_option maxRecDepth 8000 in
+theorem gEx16f_trace : (run gEx16f schedEx16f).tr =
+    [.sub 0, .acc 0, .cmd 0 0, .ret 0 0 true, .cmd 0 1, .ret 0 1 true, .cmd 1 0, .ret 1 0 true,
+     .cmd 1 1, .ret 1 1 false, .done 1 false, .hacc 3, .hacc 2, .cmd 2 0, .ret 2 0 false, .done 2 false,
+     .done 3 false, .done 0 false, .mwait false, .fin 0 false, .fin 1 false, .fin 2 false, .fin 3 false,
+     .root false] := by decide
+
 /-! steering of `gEx16`: the fail handler (task 2) is held in its first command until the finally
 handler (task 3) has started -/
 
